@@ -37,6 +37,9 @@ CLAIMED = {
  "C05": ("DESIGN.md §6 C05",
          "Two run classes. Codec: for every UDP codec (direct, Shadowsocks-none, SOCKS5, Shadowsocks 2022 with 0-3 identity headers and every padding policy), both directions and all 32 relay pairings with the buffer layout the relay services compute, payloads of 0..limit+2 bytes for every address kind and MTU in {1280,1492,1500,9000,65535} in canary-filled buffers: unpack(pack(x)) == x, packed length never exceeds the independently derived limit, over-limit payloads are refused, nothing outside the returned packet is written. Relay: the whole service (generic and mmsg paths) relays tagged datagrams and replies whose sizes are dense around both MTU limits; a wire monitor checks every datagram the relay emits against the MTU of that side and the edge checks equality (never truncated).",
          "relay layout in the codec half is mirrored from service code; identity chains of depth 2-3 are decoded through harness-written SIP022 hops; the SOCKS5 client session is built without its TCP association; the relay half judges a network without loss or corruption."),
+ "C06": ("DESIGN.md §6 C06",
+         "Exploration by seeded mutation and structure-aware generation (not coverage-guided). Each run drives the whole relay (2-5 servers over all server protocols with TCP and UDP listeners in both batch modes, proxied clients over none/socks5/http/ss2022 plus direct, a plain DNS resolver, a route table containing every criterion representation) with 5-30 hostile actions against every network-facing parser: listeners (mutated replays, field-aware and key-authenticated malformed messages, random bytes, arbitrary fragmentation and endings), the relay's own clients (TCP man-in-the-middle and hostile UDP upstreams), the resolver (hostile DNS over UDP and TCP) and the HTTP forwarding path (hostile origin). It then checks that nothing panicked, that the relay lets go of every TCP connection once all peers are gone, and that a well-behaved client is served through every listener over TCP and UDP. Found the HTTP forward-proxy three-goroutine deadlock (repaired).",
+         "inputs are sampled, not coverage-guided; TLS, GeoIP, file-backed sets, tproxy/redirect, client groups and the API are outside the configuration space; panics in relay goroutines are attributed by seed and not shrunk; the release clause judges TCP sockets only (UDP NAT sockets belong to C12)."),
  "C07": ("DESIGN.md §6 C07",
          "Every generated handshake of the real socks5, httpproxy CONNECT and ssnone servers is driven by both the repository client and an RFC-written harness client over a fragmenting simulated transport (byte-wise writes, pipelined handshakes, read fragmentation) and checked for exact request and identity extraction, the credential gate, reply framing, the reply for every dial-result code, and a position-coded duplex stream after the reply including server-first data coalesced with it.",
          "sampled over addresses, credentials, method lists and fragmentations; the reply-code oracle accepts several RFC-reasonable replies where no exact counterpart exists; HTTP Basic limited to canonical encodings; no TLS."),
